@@ -31,7 +31,8 @@ def handleDS (st : St) (n : Nat) (toks : List String) : Result := Id.run do
   let ansOf (k : String) : Dist.DistAns :=
     if k == "200" || k == "redir307" then .status 200
     else if k == "201" then .status 201 else if k == "404" then .status 404 else if k == "500" then .status 500
-    else if k == "503then200" then .status 503 else if k == "502then200" then .status 502
+    else if k == "503then200" || k == "503retryafter" then .status 503 else if k == "502then200" then .status 502
+    else if k == "429retryafter" then .status 429
     else if k == "redir302" then .methodChanged else .transportErr
   let run (dflt : Bool) : List (Option Dist.Put) × Nat :=
     let witV := mkVerifier st.vtab dflt wname wvhash wvid
